@@ -213,6 +213,11 @@ func c18Forceable(labels []string) bool {
 	return true
 }
 
+func isCurrent(facts map[string]interface{}) bool {
+	b, _ := facts["isCurrent"].(bool)
+	return b
+}
+
 func numInt(v interface{}) int {
 	xs := hx.NumInts([]interface{}{v})
 	if len(xs) == 0 {
@@ -286,6 +291,11 @@ func runC18(ctx *Ctx) error {
 	}
 	proto, _ := facts["proto"].(string)
 	locked, _ := facts["writesLocked"].(bool)
+	// the source no longer has the shape the theorems are about: this run is the SEARCH for a
+	// failing schedule (witnesses of the re-parametrised model first); it stops once it has some
+	isFixed, _ := facts["isFixed"].(bool)
+	search := !isFixed
+	volume := ctx.Thorough() && !search
 	ctx.Rep.Note(fmt.Sprintf("regenerated facts: protocol=%s knobs=%v writesLocked=%v isFixed=%v isCurrent=%v", proto, facts["knobs"], locked, facts["isFixed"], facts["isCurrent"]))
 
 	// ---------------- A. exploration
@@ -392,8 +402,8 @@ func runC18(ctx *Ctx) error {
 			return err
 		}
 	}
-	walks, depth, limit := 25, 7, 40
-	if ctx.Thorough() {
+	walks, depth, limit := 60, 8, 100
+	if volume {
 		walks, depth, limit = 300, 14, 1500
 	}
 	fcfgs := []c18Cfg{
@@ -453,7 +463,7 @@ func runC18(ctx *Ctx) error {
 				bad++
 			}
 			ran = c1
-			if len(crashes) >= 30 || bad >= 30 {
+			if len(crashes) >= 30 || bad >= 30 || (search && (len(crashes) > 0 || bad > 0)) {
 				ctx.Rep.Note(fmt.Sprintf("forced schedules: stopped after %d of %d (plenty of failing schedules found)", ran, len(scheds)))
 				break
 			}
@@ -571,6 +581,28 @@ func runC18(ctx *Ctx) error {
 			}
 		}
 	}
+	// the heartbeat as second writer (its first tick comes after 4 s): when the facts say that
+	// not every frame write is under the write mutex, and in the thorough tier
+	if !locked || ctx.Thorough() {
+		n0 := len(conns)
+		if locked {
+			addConn("conn-hb-0", []string{"begin:1", "lock:1", "hdr:1", "begin:0", "pay:1", "unlock:1", "lock:0", "hdr:0", "pay:0", "unlock:0"})
+		} else {
+			addConn("conn-hb-0", []string{"begin:1", "hdr:1", "begin:0", "hdr:0", "pay:0", "pay:1"})
+		}
+		for k := n0; k < len(conns); k++ {
+			conns[k].Hb = true
+		}
+		if !locked {
+			// first the order that involves the heartbeat (the other pair may be locked)
+			hb := conns[n0:]
+			conns = append(append([]c18ConnSched{}, hb...), conns[:n0]...)
+			// W4 with the handler's ack stays in front when the whole tree is unlocked
+			if len(conns) > 1 && isCurrent(facts) {
+				conns[0], conns[1] = conns[1], conns[0]
+			}
+		}
+	}
 	cres, ccr, err := c18RunChildren(ctx, c18Job{Mode: "conn", Conns: conns}, len(conns), 3*time.Minute)
 	if err != nil {
 		return err
@@ -616,7 +648,7 @@ func runC18(ctx *Ctx) error {
 	}
 	nForced := len(scheds)
 	// ---------------- D. stress
-	scripts := c18Scripts(ctx)
+	scripts := c18Scripts(ctx, volume)
 	batch := 25
 	accepted, acceptTried := 0, 0
 	stressBad := 0
@@ -626,7 +658,7 @@ func runC18(ctx *Ctx) error {
 			b1 = len(scripts)
 		}
 		part := scripts[b0:b1]
-		if stressBad >= 30 {
+		if stressBad >= 30 || (search && stressBad > 0) {
 			ctx.Rep.Note(fmt.Sprintf("stress: stopped after %d of %d scripts (plenty of failing scripts found)", b0, len(scripts)))
 			break
 		}
@@ -734,7 +766,7 @@ func runC18(ctx *Ctx) error {
 }
 
 // c18Scripts: boundary scripts first, then generated ones.
-func c18Scripts(ctx *Ctx) []c18Script {
+func c18Scripts(ctx *Ctx, volume bool) []c18Script {
 	var out []c18Script
 	cl := func(act, id string, d int) c18Action { return c18Action{Who: "cl", Act: act, ID: id, Delay: d} }
 	up := func(act, id string, n, d int) c18Action {
@@ -760,9 +792,9 @@ func c18Scripts(ctx *Ctx) []c18Script {
 		}
 	}
 	// stop racing the upstream's completion, many timings
-	races := 12
-	n := 110
-	if ctx.Thorough() {
+	races := 40
+	n := 300
+	if volume {
 		races, n = 150, 2500
 	}
 	for k := 0; k < races; k++ {
